@@ -174,3 +174,53 @@ func VH_C18_CallInit(n int) {
 	vAssert(vImplies(isTestMain, c.Location == Stdlib), "the go-test generated main is treated as standard library")
 	vAssert(vImplies(c.Location == Stdlib, c.DirSrc == "_test/_testmain.go"), "only the go-test generated main is pre-classified")
 }
+
+// VH_C18_SplitPath: splitting on "/" loses nothing: for a path without empty
+// elements, joining the parts gives the path back.
+//
+//verif:prop C18
+//verif:param n quick=1,4,6 thorough=1..8
+func VH_C18_SplitPath(n int) {
+	p := vhPathStr("p", n)
+	// no empty element: no "//" and no trailing "/"
+	for i := 0; i+1 < n; i++ {
+		vAssume(vNot(vAnd(p[i] == '/', p[i+1] == '/')))
+	}
+	vAssume(p[n-1] != '/')
+	parts := splitPath(p)
+	vReach("path split")
+	vAssert(len(parts) > 0, "a non-empty path has parts")
+	if len(parts) > 0 {
+		vAssert(pathJoin(parts...) == p, "joining the parts gives the path back")
+		for i, part := range parts {
+			if i > 0 {
+				for j := 0; j < len(part); j++ {
+					vAssert(part[j] != '/', "only the first part keeps a separator")
+				}
+			}
+		}
+	}
+}
+
+// VH_C18_IsRootedIn: with an arbitrary file system (isFile answers anything),
+// the root returned joined with the probed suffix is the input path.
+//
+//verif:prop C18
+//verif:param k 1..4
+func VH_C18_IsRootedIn(k int) {
+	parts := make([]string, k)
+	for i := range parts {
+		parts[i] = vhPathStr("part"+string(rune('0'+i)), 1)
+		vAssume(parts[i] != "/")
+	}
+	r := isRootedIn("/local", parts)
+	vReach("probed")
+	full := pathJoin(parts...)
+	if r == "" {
+		return
+	}
+	vAssert(len(r) < len(full) && full[:len(r)] == r, "the detected remote root is a proper prefix of the path")
+	if len(r) < len(full) {
+		vAssert(full[len(r)] == '/', "the root ends at a path separator")
+	}
+}
